@@ -44,6 +44,9 @@ type c11iOp struct {
 	StatusList bool   `json:"statuslist,omitempty"`
 	K          int    `json:"k"`                 // index of an issued credential of this scenario
 	Deliver    bool   `json:"deliver,omitempty"` // irevoke of a did:nuts credential: hand the published revocation to the verifier
+	// iplant: a credential with TWO status entries of the node's own list is put into the issuer's store;
+	// Shape = susp-first | other-first | two-rev | susp-only | other-only (what the first entry is / whether a second follows)
+	Shape string `json:"shape,omitempty"`
 }
 
 var c11iDIDs = []string{"did:nuts:AAAAAAAAAAAAAAAAAAAAAAAAAAAAAAAAAAAAAAAAAAAA", "did:nuts:BBBBBBBBBBBBBBBBBBBBBBBBBBBBBBBBBBBBBBBBBBBB",
@@ -80,6 +83,7 @@ type c11iWorld struct {
 	vstore verifier.Store
 	istore Store
 	issued []*vc.VerifiableCredential
+	planted map[int]bool // unsigned credentials put into the store by iplant (verified without the signature check)
 }
 
 func (w *c11iWorld) reset() {
@@ -128,6 +132,7 @@ func (w *c11iWorld) reset() {
 	w.iss = NewIssuer(w.istore, nil, w.pub, nil, w.res, w.keys, w.ld, trustConfig, sl)
 	w.ver = verifier.NewVerifier(w.vstore, w.res, resolver.DIDKeyResolver{Resolver: w.res}, w.ld, trustConfig, sl)
 	w.issued = nil
+	w.planted = map[int]bool{}
 }
 
 func c11iClass(err error) string {
@@ -178,6 +183,56 @@ func (w *c11iWorld) exec(op c11iOp) (line string) {
 			status = strings.Join(parts, ",")
 		}
 		return fmt.Sprintf("iissue ok k=%d idprefix=%v status=%s", len(w.issued)-1, strings.Split(cred.ID.String(), "#")[0] == op.Issuer, status)
+	case "iplant":
+		ii, ok := w.iss.(*issuer)
+		if !ok {
+			return "iplant err:issuer-type"
+		}
+		id := did.MustParseDID(op.Issuer)
+		var entries []*revocation.StatusList2021Entry
+		for j := 0; j < 2; j++ {
+			e, err := ii.statusList.Entry(ctx, id, revocation.StatusPurposeRevocation)
+			if err != nil {
+				return "iplant " + c11iClass(err)
+			}
+			entries = append(entries, e)
+		}
+		switch op.Shape {
+		case "susp-first":
+			entries[0].StatusPurpose = "suspension"
+		case "other-first":
+			entries[0].Type = "OtherStatus"
+		case "susp-only":
+			entries[0].StatusPurpose = "suspension"
+			entries = entries[:1]
+		case "other-only":
+			entries[0].Type = "OtherStatus"
+			entries = entries[:1]
+		}
+		m := map[string]interface{}{
+			"@context":          []interface{}{vc.VCContextV1URI().String(), credential.NutsV1Context, revocation.StatusList2021ContextURI.String()},
+			"type":              []interface{}{"VerifiableCredential", "HumanCredential"},
+			"id":                fmt.Sprintf("%s#plant-%d", op.Issuer, len(w.issued)),
+			"issuer":            op.Issuer,
+			"issuanceDate":      "2024-01-01T00:00:00Z",
+			"credentialSubject": map[string]interface{}{"id": c11iDIDs[1]},
+			"credentialStatus":  entries,
+		}
+		raw, _ := json.Marshal(m)
+		cred, err := vc.ParseVerifiableCredential(string(raw))
+		if err != nil {
+			return "iplant err:build:" + err.Error()
+		}
+		if err = w.istore.StoreCredential(*cred); err != nil {
+			return "iplant err:store:" + err.Error()
+		}
+		w.planted[len(w.issued)] = true
+		w.issued = append(w.issued, cred)
+		var parts []string
+		for _, e := range entries {
+			parts = append(parts, fmt.Sprintf("%s/%s#%s", e.Type, e.StatusPurpose, strings.TrimPrefix(e.StatusListCredential, "https://node.example/statuslist/")+"#"+e.StatusListIndex))
+		}
+		return fmt.Sprintf("iplant ok k=%d status=%s", len(w.issued)-1, strings.Join(parts, ","))
 	case "irevoke":
 		if op.K >= len(w.issued) {
 			return "irevoke none"
@@ -200,7 +255,7 @@ func (w *c11iWorld) exec(op c11iOp) (line string) {
 		if op.K >= len(w.issued) {
 			return "iverify none"
 		}
-		return "iverify " + c11iClass(w.ver.Verify(*w.issued[op.K], true, true, nil))
+		return "iverify " + c11iClass(w.ver.Verify(*w.issued[op.K], true, !w.planted[op.K], nil))
 	}
 	return "bad-op:" + op.Op
 }
@@ -263,6 +318,9 @@ func TestVerifC11i(t *testing.T) {
 			case k < 4 || n == 0:
 				is := c11iDIDs[rng.Intn(len(c11iDIDs))]
 				run(c11iOp{Op: "iissue", Sc: sc, Issuer: is, StatusList: strings.HasPrefix(is, "did:web") || rng.Intn(3) == 0})
+				n++
+			case k == 4:
+				run(c11iOp{Op: "iplant", Sc: sc, Issuer: c11iDIDs[2+rng.Intn(2)], Shape: []string{"susp-first", "other-first", "two-rev", "susp-only", "other-only", "susp-first"}[rng.Intn(6)]})
 				n++
 			case k < 7:
 				run(c11iOp{Op: "irevoke", Sc: sc, K: rng.Intn(n), Deliver: rng.Intn(4) != 0})
